@@ -3,6 +3,16 @@ import json, sys
 pid = sys.argv[1]
 wt = sys.argv[2]
 n = sys.argv[3] if len(sys.argv) > 3 else "2"
+import glob, os
+avoid = []
+for m in sorted(glob.glob('/verif/seeded/%s-*/meta.json' % pid)):
+    avoid.append(json.load(open(m))['needs_to_manifest'])
+avoid_txt = ""
+if avoid:
+    avoid_txt = ("\n\nEarlier rounds already produced changes that manifest under the following conditions; yours must use DIFFERENT "
+                 "code sites, mechanisms and (where the property spans many CPUs/formats/directives/commands) different CPUs/formats/"
+                 "directives/commands, and should exercise a different clause of the statement where it has several:\n" +
+                 "\n".join("  - " + a for a in avoid))
 for l in open('/verif/properties.jsonl'):
     d = json.loads(l)
     if d['id'] == pid:
@@ -16,7 +26,7 @@ Here is a semantic property that the software is supposed to satisfy:
   Quantified over: {d['quantifier']['text']}
   Code the property is anchored in: {', '.join(d['anchors']['files'])}
 
-Your task: produce {n} DIFFERENT realistic source changes ("mutants") to the repository, each of which BREAKS this property while (a) still compiling without new warnings-as-errors and (b) still passing the repository's existing test suite. Think of the kind of bug a maintainer could plausibly introduce in a refactoring or a feature commit: an off-by-one in a bound, a mask applied too early, a state variable not reset, a wrong branch for one encoding, a forgotten case, two sites that each look fine alone. Prefer changes that need something SPECIFIC to manifest (an unusual but legal input, a particular multi-step sequence, a boundary value, a particular CPU/option combination, a particular position in the file) rather than changes that any ordinary use would expose at once. Each mutant should be small (a few lines) and touch different code/mechanisms from the other mutant(s).
+Your task: produce {n} DIFFERENT realistic source changes ("mutants") to the repository, each of which BREAKS this property while (a) still compiling without new warnings-as-errors and (b) still passing the repository's existing test suite. Think of the kind of bug a maintainer could plausibly introduce in a refactoring or a feature commit: an off-by-one in a bound, a mask applied too early, a state variable not reset, a wrong branch for one encoding, a forgotten case, two sites that each look fine alone. Prefer changes that need something SPECIFIC to manifest (an unusual but legal input, a particular multi-step sequence, a boundary value, a particular CPU/option combination, a particular position in the file) rather than changes that any ordinary use would expose at once. Each mutant should be small (a few lines) and touch different code/mechanisms from the other mutant(s).{avoid_txt}
 
 How to build and test in the worktree (use at most 4 parallel jobs):
   cd {wt} && ./configure >/dev/null && make -j4 >/dev/null 2>&1
